@@ -5,6 +5,7 @@
 -/
 import Tranp.Lemmas.CacheFSInst
 import Tranp.Lemmas.JsonText
+import Tranp.Lemmas.JsonCodec
 import Tranp.Generated.LarkCache
 import Tranp.Generated.CacheKeys
 
@@ -121,6 +122,47 @@ example :
   refine ⟨by decide +kernel, by decide +kernel, ?_⟩
   intro k hk
   exact truncate _ rfl k (by simpa [show (JsonText.print (.obj [(['a'], .arr [.num ['1'], .str ['}']])])).length = 13 from by decide +kernel] using hk)
+
+/-- **Decoder level** — no "the decoder rejects unbalanced text" assumption: with the model of CPython's compact `json.dumps`
+    and of `json.loads` (Model/JsonCodec.lean: `printJson` / `parseJson`, tied to the real codec by the streams of C15 and
+    round-trip-proved there) a written object or array decodes to exactly the value written, and NO proper prefix of the file
+    decodes at all. These are `Hyp.valid_parse` / `Hyp.prefix_invalid` / `Hyp.dec_prefix` for the two JSON layers (tree files:
+    `EntryStored.save`; symbol files: `json.dumps(db.to_json(…), separators=(',', ':'))`), as theorems about that decoder. -/
+theorem truncate_decoder (j : Lark.Json) (hj : (∃ kvs, j = .obj kvs) ∨ (∃ xs, j = .arr xs)) :
+    Lark.parseJson (Lark.printJson j) = some j ∧
+    ∀ k, k < (Lark.printJson j).length → Lark.parseJson ((Lark.printJson j).take k) = none := by
+  refine ⟨Lark.parseJson_printJson j, fun k hk => ?_⟩
+  have hcut : (Lark.printJson j).take k ++ (Lark.printJson j).drop k = Lark.printJson j := List.take_append_drop k _
+  have hext : (Lark.printJson j).drop k ≠ [] := by
+    intro h
+    have := congrArg List.length h
+    simp only [List.length_drop, List.length_nil] at this
+    omega
+  generalize (Lark.printJson j).take k = p at hcut
+  generalize (Lark.printJson j).drop k = ext at hcut hext
+  cases p with
+  | nil => rfl
+  | cons c t =>
+    have hc : c = '{' ∨ c = '[' := by
+      rcases hj with ⟨kvs, rfl⟩ | ⟨xs, rfl⟩
+      · left
+        cases kvs with
+        | nil => simp [Lark.printJson] at hcut; exact hcut.1
+        | cons kv r => obtain ⟨k, v⟩ := kv; simp [Lark.printJson] at hcut; exact hcut.1
+      · right
+        cases xs with
+        | nil => simp [Lark.printJson] at hcut; exact hcut.1
+        | cons x r => simp [Lark.printJson] at hcut; exact hcut.1
+    exact Lark.parseJson_prefix_none (c :: t) ext c t j rfl hc hext (by rw [hcut]; exact Lark.parseJson_printJson j)
+
+/-- non-vacuity: `{"a":[1,"}"]}` — the whole text decodes, `{"a":[1,"}"]` (cut before the last brace) and `{"a":[1,"}` do not -/
+example :
+    let j : Lark.Json := .obj [(['a'], .arr [.num 1, .str ['}']])]
+    (Lark.printJson j = ['{', '"', 'a', '"', ':', '[', '1', ',', '"', '}', '"', ']', '}'] ∧
+      Lark.parseJson (Lark.printJson j) = some j ∧ Lark.parseJson ((Lark.printJson j).take 12) = none ∧
+      Lark.parseJson ((Lark.printJson j).take 10) = none) := by
+  refine ⟨by decide +kernel, (truncate_decoder _ (Or.inl ⟨_, rfl⟩)).1, ?_, ?_⟩ <;>
+    exact (truncate_decoder _ (Or.inl ⟨_, rfl⟩)).2 _ (by decide +kernel)
 
 /-! ### C05.symbols — the symbol cache (closure identity, a383b4a / c3eaa55) -/
 
